@@ -719,9 +719,8 @@ theorem betIdx_init (p : Params) (bal : List (Nat × Int)) (h t : Nat) :
 
 theorem step_betIdx (s : State) (op : Op) (hI : BetIdx s) : BetIdx (step s op).1 := (step_good s op hI).1
 
-theorem run_cons (s : State) (op : Op) (ops : List Op) : run s (op :: ops) = run (step s op).1 ops := rfl
-
-theorem run_append (s : State) (ops1 ops2 : List Op) : run s (ops1 ++ ops2) = run (run s ops1) ops2 := by
+/-- (same statement as `run_append` of C15.lean, which this file does not import) -/
+theorem run_split (s : State) (ops1 ops2 : List Op) : run s (ops1 ++ ops2) = run (run s ops1) ops2 := by
   unfold run
   rw [List.foldl_append]
 
